@@ -134,6 +134,27 @@ CLAIMS = {
         "Trusted: container/list semantics; go/ssa.",
         "DESIGN.md 5 (C14)",
     ),
+    "C11": (
+        "provenance ('last function applied') of registered and looked-up paths, guarded-index prover (E-IDX) with post-/pre-conditions, guard-to-source table for the encoded path",
+        "Decides for all strings: the same formatPath, on the same router, stands between every externally supplied path and the "
+        "tables on both the registration and the lookup side (prefix + path normalised as a whole, before the route is visible); every "
+        "index/slice of the normaliser and of match is in bounds (including the proved post-condition 'non-empty, starts with /' that "
+        "match relies on), i.e. normalisation is total; the dispatcher feeds URL.Path or EscapedPath() exactly per option. It does not "
+        "decide which strings normalise to the same key nor idempotence of formatPath.",
+        "Trusted: strings.IndexByte contract; go/ssa.",
+        "DESIGN.md 5 (C11)",
+    ),
+    "C13": (
+        "must-pass-through gates before table visibility, exact-membership (deviant idiom) rule, guarded-index prover over the lookup core with a frozen table of trusted discharges",
+        "Decides (1) that every rejection the property lists is a check each registration path passes before the route is visible in any "
+        "table, that compile errors panic, options freeze with the first counted insert, method names are compared exactly; (2) that "
+        "every potentially panicking construct in rux's own lookup code (index/slice, unchecked assertion, explicit panic, nil function "
+        "field, nil cache, nil map write) is safe for all method and path strings given only invariants established at registration. "
+        "It does not decide that every invalid pattern string is recognised as invalid.",
+        "Trusted: the named discharges in idx.go (regexp submatch arity, pool/element dynamic types backed by who-may-write checks, the "
+        "handler boundary for the executor's index); go/ssa.",
+        "DESIGN.md 5 (C13)",
+    ),
 }
 
 NOT_APPLICABLE = {}
